@@ -197,7 +197,7 @@ def check_percentage(E, result, ref_matched, total, consumed, oblig):
 
 
 def job_recheck(E, prop, version, shape, P, K, dmg, source="ref", cpath="root", trailing_pad=False,
-                v2_single_length=True, _mutants=None):
+                v2_single_length=True, tname=None, _mutants=None):
     rels = SHAPES[shape]
     fs = AFS(order="reversed")
     sizes = {}
@@ -226,7 +226,12 @@ def job_recheck(E, prop, version, shape, P, K, dmg, source="ref", cpath="root", 
             return
         meta = t.sort_meta()
         disk_ext, damaged = apply_damage(E, fs, shape, sizes, dmg)
-    result, yields = run_checker(E, w, meta, "/data/name" if cpath == "root" else "/data", prop)
+    if tname:
+        # the torrent (and its payload root) under another name
+        fs.rename("/data/name", "/data/" + tname)
+        del fs.log[:]
+        meta["info"]["name"] = tname
+    result, yields = run_checker(E, w, meta, "/data/" + (tname or "name") if cpath == "root" else "/data", prop)
     if getattr(E, "capture", None) is not None:
         E.capture.append((result, [(bool(c == p), n) for c, p, _, n in yields]))
     if result is None:
@@ -239,9 +244,14 @@ def job_recheck(E, prop, version, shape, P, K, dmg, source="ref", cpath="root", 
     E.check(not fs.log, prop + ".read-only", "recheck mutated the filesystem: %r" % (fs.log[:3],))
     if prop == "C05":
         # the statement is about the reported number only; internal byte accounting is not judged here
+        from symx import core as _core
+        _core.record_fp_shape(E, "eq100", result)
         E.check(result == 100, "C05.result==100", "intact content reported as %r (matched %r, consumed %r, payload %r)"
                 % (result, matched, consumed, total))
     elif prop == "C04":
+        from symx import core as _core
+        if E.feasible(result < 100):
+            _core.record_fp_shape(E, "lt100", result)
         E.check(result < 100, "C04.result<100", "damaged content (%r) reported as 100%%" % (list(dmg),))
     elif prop == "C16":
         table = piece_table(version, shape, sizes, P, disk_ext, meta)
@@ -319,7 +329,13 @@ def conc_world(params, model, workdir, seed):
             refconc.write_file(os.path.join(workdir, "data", r), disk[r])
         else:
             os.makedirs(os.path.dirname(os.path.join(workdir, "data", r)), exist_ok=True)
-    cpath = os.path.join(workdir, "data", "name") if params.get("cpath", "root") == "root" else os.path.join(workdir, "data")
+    tname = params.get("tname")
+    if tname:
+        os.rename(os.path.join(workdir, "data", "name"), os.path.join(workdir, "data", tname))
+        meta["info"]["name"] = tname
+        with open(mpath, "wb") as f:
+            f.write(refconc.bencode(meta))
+    cpath = os.path.join(workdir, "data", tname or "name") if params.get("cpath", "root") == "root" else os.path.join(workdir, "data")
     return mpath, cpath, data, disk, sizes
 
 
